@@ -25,6 +25,41 @@ def sign_model(an, year):
         c.zero = zero
         return c
     nn, wit = fixpoint(cdefs, mk)
+    # second stage: relational proofs (polyhedral case analysis) for what the sign domain cannot show;
+    # proven lines are added as facts and the stage is repeated until nothing new is proven
+    from ..relational import Prover
+    from ..signs import line_nonneg
+    all_defs = {}
+    for d in an.defs.values():
+        if d.year == year:
+            all_defs[f'v:{d.fr.name}.{d.name}'] = d
+    nn = set(nn)
+    changed = True
+    rounds = 0
+    while changed and rounds < 8:
+        changed = False
+        rounds += 1
+        pr = Prover(cdefs, nn, zero)
+        pr.defs_all = all_defs
+        ctx = mk(nn)
+        for k in sorted(set(cdefs) - nn):
+            d = cdefs[k]
+            ok, w = line_nonneg(d, ctx)
+            if not ok:
+                ok = True
+                for p in d.paths:
+                    if p.outcome.kind != 'ret':
+                        continue
+                    v = p.outcome.value
+                    if v is None:
+                        continue
+                    if isinstance(v, (tuple, list)) or not pr.prove_nonneg(v, p.guards, k):
+                        ok = False
+                        break
+            if ok:
+                nn.add(k)
+                wit.pop(k, None)
+                changed = True
     return cdefs, nn, wit, mk
 
 
